@@ -20,7 +20,11 @@ Tie (all through the real compiler of /repo's working tree):
   case, renamed forms, labels, the parent's name, reserved words): the emitted library must declare pairwise distinct
   names (case-insensitively), entities are identified by resolving the instance statements from the top unit, every
   template must own exactly one unit with its declared ports, and the unit of every renamed / name-sharing template is
-  simulated on its own against Lean simFlat of that template.
+  simulated on its own against Lean simFlat of that template;
+* array signals in the parent (elements, slices / bits / typed views of elements as actuals) and templates built by
+  INHERITANCE (`class D(B)` adding / re-declaring ports, overriding or inheriting the architecture; base, derived and
+  siblings instantiated in one parent in any order, directly or through std.OpenEntity / std.ConnectedEntity): the
+  expected interface of every template is computed from its own description.
 """
 
 import re
@@ -633,48 +637,6 @@ def sx_template(design, name):
 
 
 
-_NESTED_OUT = re.compile(r"^(\s*)(\w+) => (\w+\(\d+\)\((?:\d+ downto \d+|\d+)\))(,?)\s*$")
-_INST = re.compile(r"^\s*(\w+): entity (\w+)\.(\w+)")
-_ENT = re.compile(r"entity (\w+) is\s+port \((.*?)\);\s*end", re.S)
-
-
-def lower_nested_out_actuals(text):
-    """harness.vhdl_sim collapses a formal onto a name, a slice or an index of the actual's storage, but not onto a slice /
-    bit OF AN ARRAY ELEMENT (`v => rv(3)(1)`): for an OUTPUT formal that is "associated with an expression".  Such
-    associations are rewritten into an intermediate signal of the formal's type and `actual <= tmp;` (semantically
-    equivalent; types stay checked by the assignment).  SHARED-CHANGE-REQUEST in notes/C12.md."""
-    lines = text.split("\n")
-    if not any(_NESTED_OUT.match(l) for l in lines):
-        return text
-    ptypes = {}
-    for m in _ENT.finditer(text):
-        for line in m.group(2).split("\n"):
-            mm = re.match(r"\s*(\w+) : (in|out|inout) (.*?);?\s*$", line)
-            if mm:
-                ptypes[(m.group(1).lower(), mm.group(1).lower())] = (mm.group(2), mm.group(3))
-    out, decl_at, ent, inst_at, k, decls = [], None, None, None, 0, []
-    for line in lines:
-        if line == "begin":
-            decl_at = len(out)
-        m = _INST.match(line)
-        if m:
-            ent, inst_at = m.group(3), len(out)
-        m = _NESTED_OUT.match(line)
-        if m and ent is not None and ptypes.get((ent.lower(), m.group(2).lower()), ("in",))[0] == "out":
-            ind, formal, actual, comma = m.groups()
-            tmp = f"c12out{k}"
-            k += 1
-            decls.append((decl_at, f"  signal {tmp} : {ptypes[(ent.lower(), formal.lower())][1]};"))
-            out.insert(inst_at, f"  {actual} <= {tmp};")
-            inst_at += 1
-            out.append(f"{ind}{formal} => {tmp}{comma}")
-            continue
-        out.append(line)
-    for at, d in sorted(decls, key=lambda x: -x[0]):
-        out.insert(at, d)
-    return "\n".join(out)
-
-
 def raw(d, name):
     v = d.get_raw(name)
     return getattr(v, "bits", None) or getattr(v, "v", None) or str(v)
@@ -682,7 +644,7 @@ def raw(d, name):
 
 def sim_vhdl(text, in_ports, out_ports, inputs, top=None):
     """inputs: list of {port: nat}; returns per clock 'pre|post' with the raw bit strings of the outputs"""
-    d = Design(lower_nested_out_actuals(text), top=top)  # top=None: the last entity of the text
+    d = Design(text, top=top)  # top=None: the last entity of the text
     d.set("clk", 0)
     for (n, k, w) in in_ports:
         d.set(n, 0 if k == "bit" else format(0, f"0{w}b"))
